@@ -180,6 +180,27 @@ impl<const P: i64> PrimeResidueClass<P> {
     //@ end
 }
 
+// the other common way to canonicalise a truncated remainder: (t + p) % p
+proof fn lemma_trunc_mod_alt(n: int, p: int)
+    requires p > 0
+    ensures ({
+        let t = rust_rem(n, p);
+        -p < t < p && rust_rem(t + p, p) == n % p && (t + p) % p == n % p
+    })
+{
+    lemma_trunc_mod(n, p);
+    let t = rust_rem(n, p);
+    lemma_mod_bound(n, p);
+    if n == 0 { lemma_small_mod(0, p as nat); }
+    else if n > 0 { assert(t == n % p); }
+    else { lemma_mod_bound(-n, p); assert(t == -((-n) % p)); }
+    assert(-p < t < p);
+    if t < 0 { lemma_small_mod((t + p) as nat, p as nat); assert((t + p) % p == t + p); }
+    else { lemma_mod_multiples_vanish(1, t, p); lemma_small_mod(t as nat, p as nat); assert((p * 1 + t) % p == t % p); assert(t + p == p * 1 + t); }
+    // rust_rem of a positive number is the mathematical remainder
+    assert(t + p > 0);
+}
+
 impl<const P: i64> vstd::std_specs::convert::FromSpecImpl<i64> for PrimeResidueClass<P> {
     open spec fn obeys_from_spec() -> bool { false }
     open spec fn from_spec(n: i64) -> Self { arbitrary() }
@@ -191,7 +212,7 @@ impl<const P: i64> From<i64> for PrimeResidueClass<P> {
     fn from(n: i64) -> (r: Self)
         ensures r.val() == (n as int) % (P as int)
     {
-        proof { domain_valid_p::<P>(); lemma_trunc_mod(n as int, P as int); }
+        proof { domain_valid_p::<P>(); lemma_trunc_mod(n as int, P as int); lemma_trunc_mod_alt(n as int, P as int); }
         let r = n % P;
         PrimeResidueClass {
             value: if r < 0 { r + P } else { r }
@@ -211,7 +232,7 @@ impl<const P: i64> From<i32> for PrimeResidueClass<P> {
     fn from(n: i32) -> (r: Self)
         ensures r.val() == (n as int) % (P as int)
     {
-        proof { domain_valid_p::<P>(); lemma_trunc_mod(n as int, P as int); }
+        proof { domain_valid_p::<P>(); lemma_trunc_mod(n as int, P as int); lemma_trunc_mod_alt(n as int, P as int); }
         let r = (n as i64) % P;
         PrimeResidueClass {
             value: if r < 0 { r + P } else { r }
